@@ -16,3 +16,4 @@ open Neutrino.CFHeaders
 #print axioms C03_honest_wins_partial
 #print axioms C03_checkpoint_batches
 #print axioms C03_checkpoints_tip_counterexample
+#print axioms C03_checkpoints_resolve
